@@ -94,12 +94,19 @@ class LogIntf:
         self.written = []
         self.write_padding = 0
         self.dropped = 0
+        self.events = []
 
     def write(self, data):
         self.written.append(data)
 
     def drop_all(self):
         self.dropped += 1
+
+    def start(self):
+        self.events.append("intf.start")
+
+    def stop(self):
+        self.events.append("intf.stop")
 
 
 def comm_view(comm):
@@ -143,3 +150,61 @@ def devinfo_run(comm):
     """the description phase of the handshake on a handler whose queues and link are the stubs above"""
     dev = comm._devinfo_get()
     return [dev, comm._intf.written, comm._intf.write_padding, comm._intf.dropped, comm._q.items, comm._q_stream.items]
+
+
+class FakeThread:
+    """Stand-in for nxslib.thread.ThreadCommon: records whether the worker is running."""
+
+    def __init__(self):
+        self.running = False
+        self.starts = 0
+        self.stops = 0
+
+    def thread_start(self):
+        if not self.running:
+            self.running = True
+            self.starts += 1
+
+    def thread_stop(self):
+        if self.running:
+            self.running = False
+            self.stops += 1
+
+
+def nx_view(nx):
+    """what the life-cycle properties talk about"""
+    c = nx._comm
+    return copy.deepcopy([nx._connected, nx._stream_started, nx._thrd.running, c._started, c._thrd.running,
+                          c._dev is None, c._intf.events, c._intf.written, c._q.items])
+
+
+def nx_run(nx, ops):
+    """a history of life-cycle calls on an NxscopeHandler whose threads, queues and link are stubs;
+    the exceptions the life cycle can raise are recorded and the history goes on, so that the state
+    left behind by a failed call is compared too"""
+    views = []
+    for op in ops:
+        name = op[0]
+        try:
+            if name == "connect":
+                nx.connect()
+            elif name == "disconnect":
+                nx.disconnect()
+            elif name == "stream_start":
+                nx.stream_start()
+            elif name == "stream_stop":
+                nx.stream_stop()
+            elif name == "enable":
+                nx.ch_enable(op[1], op[2])
+            elif name == "write":
+                nx.channels_write()
+            elif name == "default":
+                nx.channels_default_cfg(op[1])
+        except TimeoutError:
+            views.append("TimeoutError")
+        except AssertionError:
+            views.append("AssertionError")
+        except IndexError:
+            views.append("IndexError")
+        views.append(nx_view(nx))
+    return views
